@@ -7,10 +7,20 @@ package main
 // one-minute order backdate) and the dates of the certificate Finalize obtains for that order.
 
 import (
+	"context"
 	"encoding/json"
 	"fmt"
+	"net/http"
 	"net/http/httptest"
 	"time"
+
+	"github.com/go-chi/chi/v5"
+
+	"github.com/smallstep/certificates/acme"
+	acmeAPI "github.com/smallstep/certificates/acme/api"
+	"github.com/smallstep/certificates/authority"
+	"github.com/smallstep/certificates/authority/config"
+	"github.com/smallstep/certificates/authority/provisioner"
 
 	c "verif/harness/common"
 
@@ -21,6 +31,66 @@ import (
 type ACMECase struct {
 	RNB, RNA TD
 	Finalize bool
+	// authority-level and provisioner-level claims and the authority backdate (nil / 0 = acmeenv's own
+	// authority: default claims, backdate 1 m)
+	A, P     *ClaimSet
+	Backdate int64
+	Custom   bool
+}
+
+type mergedCtx struct {
+	context.Context
+	base context.Context
+}
+
+func (m mergedCtx) Value(k any) any {
+	if v := m.Context.Value(k); v != nil {
+		return v
+	}
+	return m.base.Value(k)
+}
+
+var acmeDefaultRouter http.Handler
+var acmeDefaultAuth *authority.Authority
+var acmeDefaultProv *provisioner.ACME
+
+// useAuthority points the ACME router at an authority of our own (claims, backdate) with an ACME provisioner of
+// the same name; the ACME database, nonce store, linker and validation client stay the environment's.
+func (k *ACMECase) useAuthority(e *acmeenv.Env) bool {
+	if acmeDefaultRouter == nil {
+		acmeDefaultRouter, acmeDefaultAuth, acmeDefaultProv = e.Router, e.Auth, e.Provs["acme"]
+	}
+	if !k.Custom {
+		e.Router, e.Auth, e.Provs["acme"] = acmeDefaultRouter, acmeDefaultAuth, acmeDefaultProv
+		return true
+	}
+	env := getEnv()
+	ap := &provisioner.ACME{Type: "ACME", Name: "acme", Claims: k.P.claims(),
+		Challenges: []provisioner.ACMEChallenge{provisioner.HTTP_01}}
+	cfg := &config.Config{
+		Address: ":443", DNSNames: []string{acmeenv.Host},
+		AuthorityConfig: &config.AuthConfig{Provisioners: provisioner.List{ap},
+			Backdate: &provisioner.Duration{Duration: time.Duration(k.Backdate)}, Claims: k.A.claims()},
+	}
+	a, err := authority.NewEmbedded(authority.WithConfig(cfg), authority.WithX509RootCerts(env.root),
+		authority.WithX509Signer(env.inter, env.interKey), authority.WithQuietInit())
+	if err != nil {
+		return false
+	}
+	if p, err := a.LoadProvisionerByName("acme"); err != nil {
+		return false
+	} else if _, un := p.(provisioner.Uninitialized); un {
+		return false
+	}
+	base := authority.NewContext(context.Background(), a)
+	base = acme.NewContext(base, e.DB, e.Client, e.Linker, nil)
+	mux := chi.NewRouter()
+	mux.Route("/acme", func(r chi.Router) { acmeAPI.Route(r) })
+	e.Router = http.HandlerFunc(func(w http.ResponseWriter, r *http.Request) {
+		mux.ServeHTTP(w, r.WithContext(mergedCtx{r.Context(), base}))
+	})
+	e.Auth, e.Provs["acme"] = a, ap
+	return true
 }
 
 var acmeEnv *acmeenv.Env
@@ -49,8 +119,12 @@ func getACME() (*acmeenv.Env, *acmeenv.Acct, error) {
 
 func closeACME() {
 	if acmeEnv != nil {
+		if acmeDefaultRouter != nil { // hand the environment's own authority back before it is shut down
+			acmeEnv.Router, acmeEnv.Auth = acmeDefaultRouter, acmeDefaultAuth
+		}
 		acmeEnv.Close()
 		acmeEnv = nil
+		acmeDefaultRouter, acmeDefaultAuth, acmeDefaultProv = nil, nil, nil
 	}
 }
 
@@ -75,8 +149,15 @@ func (k *ACMECase) runAll() (out [][2]string) {
 	if err != nil {
 		return [][2]string{{"skip reason=acme-env", "skip"}}
 	}
+	if !k.useAuthority(e) {
+		return nil // claims that do not initialise
+	}
 	prov := e.Provs["acme"]
 	def := int64(prov.DefaultTLSCertDuration())
+	gfull, pset := fullOf(claimer(hard, nil).Claims()), (*ClaimSet)(nil)
+	if k.Custom {
+		gfull, pset = fullOf(claimer(hard, k.A).Claims()), k.P
+	}
 	bd := int64(e.Auth.GetConfig().AuthorityConfig.Backdate.Duration)
 	base := time.Now()
 	acmeSeq++
@@ -148,8 +229,8 @@ func (k *ACMECase) runAll() (out [][2]string) {
 		}
 		break
 	}
-	fl := fmt.Sprintf("x509 e2e=1 cas=1 mode=def lnb=0:0 lna=0:0 g=%s p=nil bd=%d now=%s vnow=%s snb=t%s sna=t%s cnb=0:0 cna=0:0",
-		fullOf(claimer(hard, nil).Claims()), bd, timeS(vnow), timeS(vnow), timeS(o.NotBefore), timeS(o.NotAfter))
+	fl := fmt.Sprintf("x509 e2e=1 cas=1 mode=def lnb=0:0 lna=0:0 g=%s p=%s bd=%d now=%s vnow=%s snb=t%s sna=t%s cnb=0:0 cna=0:0",
+		gfull, pset, bd, timeS(vnow), timeS(vnow), timeS(o.NotBefore), timeS(o.NotAfter))
 	if rec.Code != 200 {
 		return append(out, [2]string{fl, "rej"})
 	}
@@ -167,6 +248,15 @@ func (k *ACMECase) runAll() (out [][2]string) {
 
 func genACME(r *c.Rng) *Case {
 	k := &ACMECase{Finalize: r.Chance(2, 3)}
+	mn, mx, bdv := 5*min, dy, min
+	if r.Chance(1, 2) {
+		k.Custom = true
+		k.A, k.P = genClaimSet(r, false), genClaimSet(r, false)
+		k.Backdate = c.Pick(r, backdates)
+		g := fullOf(claimer(hard, k.A).Claims())
+		mn, mx, _ = tlsOf(g, k.P)
+		bdv = k.Backdate
+	}
 	nbOff := int64(-min)
 	switch r.Intn(8) {
 	case 0, 1, 2, 3: // absent
@@ -176,7 +266,7 @@ func genACME(r *c.Rng) *Case {
 	default:
 		k.RNB = TD{Kind: 1, T: c.Pick(r, absTimes[2:])}
 	}
-	anchors := []int64{5 * min, dy, dy + min, 0}
+	anchors := []int64{mn, mx, addSat(mx, bdv), 0}
 	switch r.Intn(8) {
 	case 0, 1, 2: // absent
 	case 3, 4, 5:
@@ -184,7 +274,7 @@ func genACME(r *c.Rng) *Case {
 	case 6:
 		k.RNA = TD{Kind: 1, T: T{Rel: true, Off: c.Pick(r, smallOffs)}}
 	default:
-		if s := pickWitness(r, 5*min, dy+min, 13); s != 0 && r.Chance(1, 2) {
+		if s := pickWitness(r, mn, addSat(mx, bdv), 13); s != 0 && r.Chance(1, 2) {
 			k.RNA = TD{Kind: 1, T: T{Rel: true, Off: nbOff, Sec: int64(s)}}
 		} else {
 			k.RNA = TD{Kind: 1, T: c.Pick(r, absTimes[2:])}
@@ -201,5 +291,8 @@ func cornerACME() []*Case {
 		{ACME: &ACMECase{Finalize: true, RNB: TD{Kind: 1, T: T{Rel: true}}, RNA: TD{Kind: 1, T: T{Rel: true, Off: dy + min}}}},
 		{ACME: &ACMECase{Finalize: true, RNB: TD{Kind: 1, T: T{Rel: true}}, RNA: TD{Kind: 1, T: T{Rel: true, Off: dy + min + sec}}}},
 		{ACME: &ACMECase{Finalize: true, RNB: TD{Kind: 1, T: T{Rel: true}}, RNA: TD{Kind: 1, T: T{Rel: true, Sec: 18446744074 + 3600}}}},
+		// authority backdate 0 and default = max: the default order (start backdated by the ACME minute) is refused at finalize
+		{ACME: &ACMECase{Finalize: true, Custom: true, Backdate: 0}},
+		{ACME: &ACMECase{Finalize: true, Custom: true, Backdate: hr, P: &ClaimSet{p64(min), p64(2 * hr), p64(hr)}}},
 	}
 }
